@@ -41,7 +41,7 @@ def run(ck: Check):
               "random": 6 if q else 12, "event_faults": 10 if q else 25, "json_truncations": 10 if q else 40,
               "json_flips": 8 if q else 25, "json_structural": 16 if q else 50, "json_random": 5 if q else 12,
               "encodings": 5 if q else 20, "json_noclass": 6 if q else 25, "json_generic": 10 if q else 40}
-    jobs = make_jobs(ck, "c15", EXTRAS_C15, ck.n(8, 36), budget)
+    jobs = make_jobs(ck, "c15", EXTRAS_C15, ck.n(8, 26), budget)
     if getattr(ck, "replay_file", None):
         rp = json.load(open(ck.replay_file))["replay"]
         if "job" in rp:
